@@ -887,6 +887,29 @@ K("tds.permutation_parity", ["C05"], TDS, "tds_perm.rs", "permutation_parity_con
          dict(file=TDS, old="        for i in 0..target_positions.len() {\n            for j in (i + 1)..target_positions.len() {", new="        for i in 0..target_positions.len() {\n            for j in (i + 2)..target_positions.len() {",
               desc="inversion count skips adjacent pairs"))
 
+_SL_VINC = dict(file=TDS, fn_anchor=r"fn validate_vertex_incidence\(&self\) -> Result<\(\), TdsValidationError>", name="verif_slice_vertex_incidence_decision",
+                params="&self, vertex_key: VertexKey, incident_cell_key: CellKey", ret="Result<(), TdsValidationError>",
+                stmts=[dict(rest_of_block_after=r"let Some\(incident_cell_key\) = vertex\.incident_cell else", wrap_loop=True)], result="Ok(())")
+K("tds.vertex_incidence_decision", ["C05"], TDS, "tds_slices.rs", "vertex_incidence_decision_contract", "K-slice",
+  [dict(file=TDS, name="Tds::validate_vertex_incidence (K-slice: loop body after the hint is read)", anchor=_SL_VINC["fn_anchor"])],
+  slices=[_SL_RMC, _SL_VINC], extra_attach=[("src/core/cell.rs", "cell_helper.rs")], timeout=1200,
+  assumed=["K-slice: the loop body of validate_vertex_incidence after `let Some(incident_cell_key) = ..;` (run once); vertex iteration dropped; one vertex-less dummy cell in real storage; format! stubbed"],
+  bounded="one stored cell, one vertex key", obligations=["hint-must-contain-vertex"],
+  claim="per-vertex decision of Tds::validate_vertex_incidence: a hint that is dangling or names a live cell not containing the vertex is rejected",
+  mutant=dict(file=TDS, old="            if !incident_cell.contains_vertex(vertex_key) {", new="            if false && !incident_cell.contains_vertex(vertex_key) {", desc="membership scan of the incident cell disabled"))
+for _u in UNITS:
+    if _u["id"] == "tds.remove_cells_tail":
+        _u["slices"] = [_SL_RMC, _SL_VINC]
+        _u["extra_attach"] = [("src/core/cell.rs", "cell_helper.rs")]
+
+K("dt.rebuild_keeps_vertices", ["C08"], DT, "dt_rebuild.rs", "rebuild_keeps_vertices_contract", "K-bounded",
+  [fn(DT, "collect_vertices_for_rebuild")], extra_attach=[(TDS, "tds_helper.rs")], timeout=1200, no_playback=True,
+  bounded="2 stored vertices (real slot-map storage), any coordinates and user data",
+  obligations=["same-count", "uuid-kept", "data-kept", "coords-kept", "no-duplication"],
+  claim="collect_vertices_for_rebuild (input of the heuristic rebuild in repair_delaunay_with_flips_advanced): the rebuilt triangulation is built from exactly the stored vertices - same UUID, bit-identical coordinates, same user data",
+  mutant=dict(file=DT, old="            .map(|(_, vertex)| Vertex::new_with_uuid(*vertex.point(), vertex.uuid(), vertex.data))", new="            .map(|(_, vertex)| Vertex::new_with_uuid(*vertex.point(), vertex.uuid(), None))",
+              desc="user data dropped when collecting vertices for the heuristic rebuild"))
+
 # ======================================================================================
 # Units that are written and attached on demand (`--unit ID`) but NOT part of any registered
 # command: they do not finish within 45 min here (or were never seen to finish).
